@@ -498,6 +498,8 @@ def make_strategy(symbol, script, real_ctx):
 
         def on_close_position(self, order):
             self._obs('on_close_position', order)
+            if script.get('read_metrics'):
+                _ = self.metrics
 
         def on_cancel(self):
             self._obs('on_cancel')
@@ -506,6 +508,11 @@ def make_strategy(symbol, script, real_ctx):
             if script.get('shared'):
                 self.shared_vars['vf_steps'] = self.shared_vars.get('vf_steps', 0) + 1
             self._obs('before')
+            if script.get('read_metrics'):
+                _ = self.metrics  # the documented read-only view of the session's performance so far
+            if script.get('no_update') and self.position.is_open:
+                # a strategy without an update_position() of its own manages its position from before()
+                self._apply(self._row().get('upd'))
 
         def after(self):
             self._obs('after')
@@ -526,6 +533,8 @@ def make_strategy(symbol, script, real_ctx):
         def dna(self):
             return script.get('dna', '')
 
+    if script.get('no_update'):
+        del Scripted.update_position  # the base class' empty update_position() is inherited
     Scripted.__name__ = 'Scripted_' + symbol.replace('-', '_')
     real_ctx.strategies[symbol] = Scripted
     if REUSE_CLASSES[0]:
